@@ -963,3 +963,18 @@ package ro
 //@   on next(ctx, flattenSources) when len(flattenSources) > 0 : emits call.zipAllInnerSubscriptions(ctx, flattenSources, destination), innerSub.Add(_)
 //@   on error(ctx, err) : emits Error(ctx, err)
 //@   on complete(ctx) : emits
+
+//@ operator CombineLatestWith1
+//@   props C04 C05
+//@   note sequential-interleaving semantics (whole callbacks); the state is the real state: the status word and the two latest-value pointers
+//@   inline (*Pointer).Load (*Pointer).Store
+//@   on next@obsA(ctx, v) when status < 2 && valueB.p.v != nil : emits Next(ctx, fields(v, deref(valueB.p.v)))
+//@   on next@obsA(ctx, v) when status >= 2 || valueB.p.v == nil : emits
+//@   on next@obsB(ctx, v) when status < 2 && valueA.p.v != nil : emits Next(ctx, fields(deref(valueA.p.v), v))
+//@   on next@obsB(ctx, v) when status >= 2 || valueA.p.v == nil : emits
+//@   on error@obsA(ctx, err) : emits Error(ctx, err) ; post status' == 3
+//@   on error@obsB(ctx, err) : emits Error(ctx, err) ; post status' == 3
+//@   on complete@obsA(ctx) when status + 1 == 2 : emits Complete(ctx) ; post status' == status + 1
+//@   on complete@obsA(ctx) when status + 1 != 2 : emits ; post status' == status + 1
+//@   on complete@obsB(ctx) when status + 1 == 2 : emits Complete(ctx) ; post status' == status + 1
+//@   on complete@obsB(ctx) when status + 1 != 2 : emits ; post status' == status + 1
